@@ -18,6 +18,28 @@ SYS_RULE = ("sys traces: a real server App and 1..3 real client Apps (MinimalPlu
             "server frame and one client frame that holds entities. ")
 
 PROPS = {
+    "C10": {
+        "modules": ["Replicon.Props.C10"],
+        "theorems": [
+            "Replicon.C10.C10_partition",
+            "Replicon.C10.C10_atomic",
+            "Replicon.C10.C10_size_bound",
+            "Replicon.C10.C10_single",
+        ],
+        "const_obligations": ["shape of can_pack and of the split condition in Mutations::send (anchored source patterns)"],
+        "profiles": [{"name": "sys_split", "shards": {"thorough": 8}}, {"name": "sys", "shards": {"thorough": 4}}],
+        "rule": SYS_RULE + "For C10 (profile sys_split: blob components of 0..400 bytes, max_size in {1,40,120,200,1200} changed mid-run, relation "
+                "graphs through ChildOf with sync_related_entities): (1) model vs implementation: the chunk sequence and header size are read off "
+                "the decoded real mutate messages of a tick and Packing.split must reproduce the real partition into messages exactly; "
+                "(2) oracle: no entity in two messages of a tick, related entities in one message, no message above max_size when every "
+                "chunk fits, one message when everything fits.",
+        "trusted_extra": [
+            "modelled, not verified: which entities form a graph (RelatedEntities / petgraph) — specified as connected components of ChildOf among "
+            "replicated entities and compared with the implementation's message boundaries; postcard sizes of the header fields",
+        ],
+        "assumptions": ["header size is constant within a tick (update tick, server tick, fixed-width MutateIndex)",
+                        "known finding F22: with tracking the server splits against a 10-byte reserve for the counter (tagged by the trace checker)"],
+    },
     "C08": {
         "modules": ["Replicon.Props.C08"],
         "theorems": [
@@ -173,6 +195,19 @@ PROPS = {
 }
 
 MANIFEST_TEXT = {
+    "C10": {
+        "text": "Lean theorems about an exact model of can_pack and the chunking loop of Mutations::send, for every list of chunk sizes, header and "
+                "max size: the messages are a partition of the chunk list into consecutive runs (C10_partition), hence any delivered subset "
+                "consists of whole entities / whole related groups (C10_atomic); if every chunk fits no message exceeds max_size "
+                "(C10_size_bound); if everything fits exactly one message is sent (C10_single). The model must reproduce the partition observed "
+                "in the real messages of every generated tick; the grouping of related entities is checked as a specification on the real "
+                "message boundaries.",
+        "design_ref": "DESIGN.md §7 C10",
+        "note": "RelatedEntities (petgraph) is specified, not modelled. The client-side half (an entity record is applied completely or not at "
+                "all) is part of the client model (C02). Known finding F22 (tracking reserve) is outside C10_size_bound's hypothesis as the server "
+                "evaluates it.",
+        "technique": "Lean 4 proof (fold invariants over the chunk loop) + model/implementation comparison of message partitions on real traces",
+    },
     "C08": {
         "text": "Lean theorems about an exact per-entity model of ClientVisibility for both policies: for every sequence of set_visibility calls "
                 "(including mutually cancelling calls inside a tick window), replication runs and despawns, the cell represents (most recent "
